@@ -593,7 +593,7 @@ class LiteralValue(Term):
         self._value = value
 
     def get_sql(self, ctx: SqlContext) -> str:
-        return format_alias_sql(self._value, self.alias, ctx)
+        return format_alias_sql(self._value, self.alias, ctx) if ctx.with_alias else self._value
 
 
 class NullValue(LiteralValue):
